@@ -41,13 +41,13 @@ package values
 
 //@ func (*StringsValue).Clear
 //@   requires recv: sa != nil
-//@   ensures cleared: len(deref(sa)) == 0
+//@   ensures cleared: deref(sa) == nil
 //@ func (*IntsValue).Clear
 //@   requires recv: ia != nil
-//@   ensures cleared: len(deref(ia)) == 0
+//@   ensures cleared: deref(ia) == nil
 //@ func (*Floats64Value).Clear
 //@   requires recv: ia != nil
-//@   ensures cleared: len(deref(ia)) == 0
+//@   ensures cleared: deref(ia) == nil
 
 // --- capability detection ---------------------------------------------------------------------------------------
 // userBoolFlag is the answer a user-supplied BoolValued gives; assumed to be a constant of the value (A-cb).
@@ -77,8 +77,61 @@ package values
 //@   requires recv: builtinValue(this) ==> ival(this) != 0
 //@   ensures own-cell: boxframe(ival(this))
 //@   ensures verdict: builtinValue(this) ==> ((result == nil) <==> acceptsValue(this, s))
+//@   ensures strings: isType(this, "*StringsValue") ==> deref(asType(this, "*StringsValue")) == old(deref(asType(this, "*StringsValue"))) ++ seq(s)
+//@   ensures ints: isType(this, "*IntsValue") ==> deref(asType(this, "*IntsValue")) ==
+//@       (ParseInt_ok(s, 10, 64) ? old(deref(asType(this, "*IntsValue"))) ++ seq(ParseInt_val(s, 10, 64)) : old(deref(asType(this, "*IntsValue"))))
+//@   ensures floats: isType(this, "*Floats64Value") ==> deref(asType(this, "*Floats64Value")) ==
+//@       (ParseFloat_ok(s, 64) ? old(deref(asType(this, "*Floats64Value"))) ++ seq(ParseFloat_val(s, 64)) : old(deref(asType(this, "*Floats64Value"))))
 
 //@ func MultiValued.Clear
 //@   logged
 //@   requires recv: builtinValue(this) ==> ival(this) != 0
 //@   ensures own-cell: boxframe(ival(this))
+//@   ensures strings: isType(this, "*StringsValue") ==> deref(asType(this, "*StringsValue")) == nil
+//@   ensures ints: isType(this, "*IntsValue") ==> deref(asType(this, "*IntsValue")) == nil
+//@   ensures floats: isType(this, "*Floats64Value") ==> deref(asType(this, "*Floats64Value")) == nil
+
+// --- environment (C06, C12, C13): SetFromEnv / setMultivalued -----------------------------------------------------------
+// setMultivalued: clear, then Set(trim(part)) for each part in order until one fails; on failure clear again.
+//@ pure rec func trimSetEvs(v any, vs []string, n int) trace =
+//@     n <= 0 ? noEvents() : trimSetEvs(v, vs, n-1) ++ seq(evSet(v, strings_TrimSpace(vs[n-1]), true))
+
+//@ func setMultivalued
+//@   requires recv: into != nil && (builtinValue(into) ==> ival(into) != 0)
+//@   ensures ok: result == nil ==> trace == (old(trace) ++ seq(evClear(into))) ++ trimSetEvs(into, values, len(values))
+//@   ensures failed: result != nil ==> len(trace) >= 2 && trace[len(trace)-1] == evClear(into) && trace[len(trace)-2].kind == 5 && trace[len(trace)-2].b == 0
+//@   ensures default-kept-on-failure-ints: isType(into, "*IntsValue") && result != nil ==> deref(asType(into, "*IntsValue")) == old(deref(asType(into, "*IntsValue")))
+//@   ensures default-kept-on-failure-floats: isType(into, "*Floats64Value") && result != nil ==> deref(asType(into, "*Floats64Value")) == old(deref(asType(into, "*Floats64Value")))
+//@   loop 1 invariant protocol: trace == (old(trace) ++ seq(evClear(into))) ++ trimSetEvs(into, values, $k)
+
+// SetFromEnv: the variables are tried in listing order; an unset/empty variable produces no call on the value;
+// single-valued: exactly one Set with the variable's content, byte for byte; true iff that Set succeeded.
+//@ func SetFromEnv
+//@   requires recv: into != nil && (builtinValue(into) ==> ival(into) != 0)
+//@   let vars = strings_Fields(envVars)
+//@   let multi = implements(into, "MultiValued")
+//@   ensures found-single: result && !multi ==> len(trace) > len(old(trace)) &&
+//@       (exists j int :: 0 <= j && j < len(vars) && env(vars[j]) != "" && trace[len(trace)-1] == evSet(into, env(vars[j]), true))
+//@   ensures not-found-single: !result && !multi ==> (forall i int :: len(old(trace)) <= i && i < len(trace) && trace[i].kind == 5 ==> trace[i].b == 0)
+//@   ensures empty-list: len(envVars) == 0 ==> !result && trace == old(trace)
+//@   loop 1 invariant failed-so-far: !multi ==> (forall i int :: len(old(trace)) <= i && i < len(trace) && trace[i].kind == 5 ==> trace[i].b == 0)
+//@   loop 1 invariant grows: len(trace) >= len(old(trace))
+//@   loop 1 step single: !multi ==> trace == (startTrace(1) ++ seq(evEnv(ev))) ++ (env(ev) == "" ? noEvents() : seq(evSet(into, env(ev), false)))
+
+// DefaultValue (C17, C19): "" when the value says it is the default, else its String()
+//@ pure func valueIsDefault(v any, n int) bool
+//@ pure func valueString(v any, n int) string
+//@ func DefaultValued.IsDefault
+//@   logged
+//@   norefine
+//@   ensures def: result == valueIsDefault(this, len(old(trace)))
+//@ func flag::Value.String
+//@   logged
+//@   norefine
+//@   ensures def: result == valueString(this, len(old(trace)))
+//@ func DefaultValue
+//@   requires recv: v != nil
+//@   ensures default: implements(v, "DefaultValued") && valueIsDefault(v, len(old(trace))) ==> result == "" && trace == old(trace) ++ seq(evMeth(v, "IsDefault"))
+//@   ensures shown: !implements(v, "DefaultValued") ==> result == valueString(v, len(old(trace))) && trace == old(trace) ++ seq(evMeth(v, "String"))
+//@   ensures shown2: implements(v, "DefaultValued") && !valueIsDefault(v, len(old(trace))) ==> result == valueString(v, len(old(trace)) + 1) &&
+//@       trace == (old(trace) ++ seq(evMeth(v, "IsDefault"))) ++ seq(evMeth(v, "String"))
